@@ -6,6 +6,7 @@ use crate::gen::*;
 use crate::oracle::*;
 use crate::solve::*;
 use clarabel::solver::SolverStatus;
+use serde::{Deserialize, Serialize};
 
 // ---------------------------------------------------------------------
 // generators
@@ -162,8 +163,69 @@ pub fn check_c01(c: &SolveCase, ctx: &mut Ctx) -> CheckResult {
 }
 
 pub fn check_c02(c: &SolveCase, ctx: &mut Ctx) -> CheckResult {
-    let bound = infinity_bound();
     let out = run_caught(c)?;
+    judge_c02(c, out, ctx)
+}
+
+/// an infeasible (or control) problem reached on a LIVE solver: the object is first built and solved on data
+/// (P, q0, A, b0) that have a planted primal-dual feasible pair, then update_q / update_b install the case's q and b
+/// and the second solve is judged exactly like a first one
+#[derive(Clone, Debug, Serialize, Deserialize)]
+pub struct ResolveCase {
+    pub base: SolveCase,
+    #[serde(with = "serde_vecf64")]
+    pub q0: Vec<f64>,
+    #[serde(with = "serde_vecf64")]
+    pub b0: Vec<f64>,
+}
+
+pub fn gen_c02_resolve(t: &mut Tape, cfg: &GenCfg) -> ResolveCase {
+    let base = gen_c02(t, cfg);
+    let dp = base.ps.dense();
+    let x0: Vec<f64> = (0..dp.n).map(|_| t.nice(1.0)).collect();
+    let mut s0 = vec![];
+    let mut z0 = vec![];
+    for c in &base.ps.cones {
+        s0.extend(interior_primal(t, c, false, 1.0));
+        z0.extend(interior_dual(t, c, false, 1.0));
+    }
+    let ax = matvec(&dp.a, &x0);
+    let b0: Vec<f64> = (0..dp.m).map(|i| ax[i] + s0[i]).collect();
+    let px = matvec(&dp.p, &x0);
+    let atz = matvec_t(&dp.a, dp.n, &z0);
+    let q0: Vec<f64> = (0..dp.n).map(|j| -(px[j] + atz[j])).collect();
+    ResolveCase { base, q0, b0 }
+}
+
+pub fn check_c02_resolve(c: &ResolveCase, ctx: &mut Ctx) -> CheckResult {
+    use clarabel::solver::IPSolver;
+    let first = catch(|| {
+        let mut ps0 = c.base.ps.clone();
+        ps0.q = c.q0.clone();
+        ps0.b = c.b0.clone();
+        let mut solver = build_solver(&ps0, &c.base.st);
+        solver.solve();
+        let st0 = solver.solution.status;
+        let r = solver.update_q(&c.base.ps.q).and_then(|_| solver.update_b(&c.base.ps.b));
+        (solver, st0, r.is_ok())
+    })
+    .map_err(|p| format!("panic during new/solve/update: {p}"))?;
+    let (solver, st0, accepted) = first;
+    ctx.label(format!("first-solve:{}", status_name(st0)));
+    if !accepted {
+        // presolve reduction or chordal decomposition active: updates are documented to be refused
+        ctx.label("update-refused");
+        return Ok(());
+    }
+    let out = catch(|| run_built(solver, &c.base.st)).map_err(|p| format!("panic during the second solve: {p}"))?;
+    if st0 == SolverStatus::Solved && matches!(out.status, SolverStatus::PrimalInfeasible | SolverStatus::DualInfeasible) {
+        ctx.label("solved-then-infeasible");
+    }
+    judge_c02(&c.base, out, ctx).map_err(|e| format!("second solve of one solver object, after update_q/update_b (first solve: {}): {e}", status_name(st0)))
+}
+
+fn judge_c02(c: &SolveCase, out: SolveOut, ctx: &mut Ctx) -> CheckResult {
+    let bound = infinity_bound();
     ctx.sub_evals += 1;
     label_case(&c.ps, &c.st, &out, ctx);
     ctx.label(format!("planted:{:?}->{}", c.ps.kind, status_name(out.status)));
@@ -493,13 +555,15 @@ pub fn run_c01(run: &mut PropRun) {
 }
 
 pub fn run_c02(run: &mut PropRun) {
-    run.rule = "proptest-generated strongly primal-infeasible (planted z in int K*, A'z=0, b'z=-1) and strongly dual-infeasible (planted x: Px=0, Ax+s=0, s in int K, q'x=-1) problems over all cone types, with random rescalings, plus feasible controls, x random settings. Oracle: z in K*, b'z<0 (resp. s in K, q'x<0), NaN objectives, and the documented scale-dependent test re-evaluated on the user's data with kappa from the observer and c from data.equilibration. non-trivial = status Primal/DualInfeasible".into();
+    run.rule = "proptest-generated strongly primal-infeasible (planted z in int K*, A'z=0, b'z=-1) and strongly dual-infeasible (planted x: Px=0, Ax+s=0, s in int K, q'x=-1) problems over all cone types, with random rescalings, plus feasible controls, x random settings. Oracle: z in K*, b'z<0 (resp. s in K, q'x<0), NaN objectives, and the documented scale-dependent test re-evaluated on the user's data with kappa from the observer and c from data.equilibration. Suite infeasible-after-update: the same cases reached on a live solver object (built and solved first on data with a planted feasible pair and the same P, A and cones, then update_q/update_b to the case's data, then solved again): the second solve is judged by the same oracle. non-trivial = status Primal/DualInfeasible".into();
     run.assumptions = vec![BLAS_NOTE.into(), "kappa before normalisation is read from the per-iteration observer hook".into(), "solves whose observed iterates leave [1e-100, 1e100] (squares, and products with data entries, overflow / underflow in plain double arithmetic: norms, cone margins and step lengths become inf, NaN or 0 by construction) are labelled not-judged and counted; what the solver reports about such an iterate is outside the judged domain".into()];
     run.replay_dir::<SolveCase>("infeasible", &check_c02);
     let small = cfg_for(run, false);
     let large = cfg_for(run, true);
     run.suite(Suite { name: "infeasible", cases: run.cfg.n(60_000, 1_500_000), tape_len: 1500, gen: &|t| gen_c02(t, &small), check: &check_c02 });
     run.suite(Suite { name: "infeasible-large", cases: run.cfg.n(3_000, 100_000), tape_len: 12_000, gen: &|t| gen_c02(t, &large), check: &check_c02 });
+    run.replay_dir::<ResolveCase>("infeasible-after-update", &check_c02_resolve);
+    run.suite(Suite { name: "infeasible-after-update", cases: run.cfg.n(20_000, 500_000), tape_len: 1800, gen: &|t| gen_c02_resolve(t, &small), check: &check_c02_resolve });
 }
 
 pub fn run_c03(run: &mut PropRun) {
@@ -522,6 +586,7 @@ pub fn run_c04(run: &mut PropRun) {
 pub fn replay(id: &str, _suite: &str, path: &str) -> CheckResult {
     match id {
         "C01" => replay_file::<SolveCase>(path, &check_c01),
+        "C02" if _suite.starts_with("infeasible-after-update") => replay_file::<ResolveCase>(path, &check_c02_resolve),
         "C02" => replay_file::<SolveCase>(path, &check_c02),
         "C03" => replay_file::<SolveCase>(path, &check_c03),
         "C04" => replay_file::<C04Case>(path, &check_c04),
